@@ -211,6 +211,10 @@ impl Node {
     /// Returns true if the driver has any open connections in the pool for this
     /// node.
     pub fn is_connected(&self) -> bool {
+        #[cfg(scylla_verif)]
+        if let Some((enabled, connected)) = verif_hooks_flags::get(self.host_id) {
+            return enabled && connected;
+        }
         #[cfg(test)]
         if self.enabled_as_connected.load(Ordering::SeqCst) {
             return self.is_enabled();
@@ -225,6 +229,10 @@ impl Node {
     /// Only enabled nodes will have connections open. For disabled nodes,
     /// no connections will be opened.
     pub fn is_enabled(&self) -> bool {
+        #[cfg(scylla_verif)]
+        if let Some((enabled, _connected)) = verif_hooks_flags::get(self.host_id) {
+            return enabled;
+        }
         self.pool.is_some()
     }
 
@@ -669,5 +677,46 @@ pub mod verif_hooks {
             #[cfg(test)]
             enabled_as_connected: std::sync::atomic::AtomicBool::new(false),
         }
+    }
+}
+
+/// Verification hooks (only with `--cfg scylla_verif`): a per-host override of
+/// `Node::is_enabled` / `Node::is_connected` (the counterpart of the `#[cfg(test)]`
+/// `enabled_as_connected` switch), so that load balancing plans can be computed for `Node`
+/// objects without connection pools. With no override registered (the default) the two
+/// functions behave exactly as without the cfg.
+#[cfg(scylla_verif)]
+#[allow(missing_docs)]
+pub mod verif_hooks_flags {
+    use std::collections::HashMap;
+    use std::sync::RwLock;
+    use std::sync::atomic::{AtomicBool, Ordering};
+    use uuid::Uuid;
+
+    static ACTIVE: AtomicBool = AtomicBool::new(false);
+    static FLAGS: RwLock<Option<HashMap<Uuid, (bool, bool)>>> = RwLock::new(None);
+
+    /// From now on the node with this host id reports `is_enabled() == enabled` and
+    /// `is_connected() == enabled && connected`.
+    pub fn set_node_flags(host_id: Uuid, enabled: bool, connected: bool) {
+        let mut guard = FLAGS.write().unwrap();
+        guard
+            .get_or_insert_with(HashMap::new)
+            .insert(host_id, (enabled, connected));
+        ACTIVE.store(true, Ordering::SeqCst);
+    }
+
+    /// Removes every override.
+    pub fn clear_node_flags() {
+        let mut guard = FLAGS.write().unwrap();
+        *guard = None;
+        ACTIVE.store(false, Ordering::SeqCst);
+    }
+
+    pub(super) fn get(host_id: Uuid) -> Option<(bool, bool)> {
+        if !ACTIVE.load(Ordering::Relaxed) {
+            return None;
+        }
+        FLAGS.read().unwrap().as_ref()?.get(&host_id).copied()
     }
 }
